@@ -59,7 +59,16 @@ def is_subsequence_of(t, base) -> str:
     if tag == "concat":
         return "no"
     if tag in ("list", "tuple"):
-        return "no" if t[1] else "yes"
+        if not t[1]:
+            return "yes"
+        # a list filled by a loop over `base` (the explorer keeps locally built lists as literals): elements taken from
+        # `base` itself in visiting order are a sub-sequence; anything constructed is not
+        if all(x[0] == "elem" and x[1] == base for x in t[1]):
+            ks = [x[2] for x in t[1]]
+            return "yes" if ks == sorted(set(ks)) else "unknown"
+        if any(y[0] in ("new",) or (y[0] == "app" and y[1].endswith(".create")) for x in t[1] for y in T.subterms(x)):
+            return "no"
+        return "unknown"
     return "unknown"
 
 
